@@ -17,6 +17,18 @@ def task(unique):
     return Task(w, references._register_ids, con, name=f"C16/_register_ids[{'ids unique' if unique else 'any tree'}]").run()
 
 
+def task_expand():
+    """expand up to the loop that starts substituting: nothing written, ValueError leaves the heap as it was, and the substitution is
+    reached only when every references node of the subtree names a registered id"""
+    from pyvc.task import Task
+    from contracts.prelude import make_world
+    from contracts import c16_refs
+    from metapype.eml import references
+    w = make_world()
+    con = c16_refs.install_expand(w)
+    return Task(w, references.expand, con, name="C16/expand[before the substitution]").run()
+
+
 def all_nodes(n):
     out = [n]
     for c in n.children:
@@ -192,11 +204,14 @@ def bounded(tier, seed):
 
 def main(tier, seed):
     t0 = time.time()
-    results = common.run_tasks([("props.C16", "task", {"unique": u}) for u in (True, False)])
+    results = common.run_tasks([("props.C16", "task", {"unique": u}) for u in (True, False)] + [("props.C16", "task_expand", {})])
     b = bounded(tier, seed)
     return common.decide(PID, tier, seed, results, b, t0, "DESIGN.md §4 C16", extra_assumptions=[
         "proved: references._register_ids returns a fresh dict mapping exactly the id attribute values of the subtree to their nodes, writes no "
         "pre-existing object, and cannot raise when ids are unique; the callees expand composes are proved elsewhere (Node.copy C12, add_child "
         "with insertion index / remove_child C09, delete_node_instance C14, find_all_descendants frame C11)",
-        "BOUNDED, not proved: expand itself (substitution in place, atomicity on a dangling reference met after resolvable ones, no references "
-        "left, referenced elements unchanged, validity preserved)"])
+        "proved for expand up to its substitution loop: collecting the references nodes (exact find_all_descendants contract, C09), building "
+        "the register and checking every reference write nothing that existed before the call; a ValueError leaves the heap as it was; the "
+        "substitution loop is reached only if every references node of the subtree names a registered id of the subtree (atomic failure)",
+        "BOUNDED, not proved: the substitution loop of expand (copies in place and in order, no references left, referenced elements "
+        "unchanged, validity preserved)"])
